@@ -82,7 +82,7 @@ def control_exception_statuses_legal(ctx, rm: REModel, rule: str):
         ctx.ob(rule, f"{k}.exit_status is a legal RunStop status", ok,
                "" if ok else f"exit_status is {status!r}: run_wrapper passes it to close_run, the stop document fails validation after ComposeStop has latched, and the run is "
                "left without a RunStop", nontrivial=True, where=c.module.path if hasattr(c, "module") else "")
-    ctx.ob(rule, "bluesky: the RunEngineControlException family was found", n >= 2, "" if n >= 2 else "control exception classes not found (anchor lost)")
+    ctx.require(n >= 2, "anchor vanished: the RunEngineControlException family (RequestAbort, RequestStop, ...) in the package")
 
 
 def d1_tables(ctx, rm: REModel):
